@@ -3,6 +3,7 @@ C16 — definitions for the finite-table theorems of FfcxProofs/C16.lean: the mo
 grammar levels (DESIGN Appendix E), the local faithfulness predicates.
 -/
 import FfcxModel.LNodes.ParsePy
+import FfcxModel.LNodes.Simplify
 
 namespace Ffcx.LNodes.Fmt
 open Ffcx.LNodes Ffcx.Generated.Precedence
@@ -104,8 +105,20 @@ def parentRows : List ClassRow := classes.filter (fun c => !(positions c).isEmpt
 def cFaithful (p c : ClassRow) (pos : Nat) : Bool :=
   decide (c.prec ≥ p.prec) || decide (cLevel c.name ≥ cRequired p pos)
 
+def isCmpClass (n : String) : Bool := ["LT", "LE", "GT", "GE", "EQ", "NE"].contains n
+
+/-- numba: additionally a comparison directly under a comparison is parenthesised
+    (`isinstance(child, comparisons)` in the BinOp handler) -/
 def pyFaithful (p c : ClassRow) (pos : Nat) : Bool :=
-  decide (c.prec ≥ p.prec) || decide (pyLevel c.name ≥ pyRequired p pos)
+  decide (c.prec ≥ p.prec) || (isCmpClass p.name && isCmpClass c.name)
+    || decide (pyLevel c.name ≥ pyRequired p pos)
+
+/-- the precedence the formatter model (`precF`) reads off MultiIndex nodes with 0, 1, 2 symbols,
+    built as `MultiIndex.__init__` builds them (`mkMultiIndex` of Simplify.lean) -/
+def miProbes : List (Nat × Nat) :=
+  [(0, precF (mkMultiIndex [] [])),
+   (1, precF (mkMultiIndex [.ex (.sym "i" .int)] [3])),
+   (2, precF (mkMultiIndex [.ex (.sym "i" .int), .ex (.sym "j" .int)] [3, 4]))]
 
 /-- the typing discipline on (parent, child, position): arithmetic operators and comparisons take
     arithmetic operands, `&& || !` take conditions, a conditional a condition and two values -/
